@@ -362,6 +362,21 @@ def check(ctx: Ctx):
     check_selection(ctx)
     check_registry(ctx)
     check_identities(ctx, values)
+    # "computed on exactly the voxels selected": the crop the pipeline applies first covers both
+    # masks (R10.3), nobody binarises the caller's arrays in place (R15.1), and the metric wrapper
+    # keeps no state between calls (R15.7)
+    from . import c03, c10, c15
+
+    c03._guarded(ctx, "R10.3", c10.check_crop_mask)
+    c03._guarded(ctx, "R15.1", c15.check_no_input_mutation)
+    c03._guarded(ctx, "R15.1", c15.check_result_purity)
+    c03._guarded(ctx, "R15.7", c15.check_globals)
+    # results of later evaluations (another group, a flipped copy, the exchanged pair, a second
+    # threshold) are only meaningful if no step writes into the caller's arrays (R15.8)
+    from . import c15 as _c15
+    from . import c03 as _c03
+
+    _c03._guarded(ctx, "R15.8", _c15.check_param_aliasing)
 
 
 _D = "panoptica/metrics/dice.py"
